@@ -12,6 +12,16 @@ def _case(world, c, i):
     return case
 
 
+def _case_of_event(ev):
+    """replay: the event echoes the case except for the schema, which is taken from the last generated case file"""
+    import os
+    import vlib
+    case = {k: v for k, v in ev.items() if k in ("id", "kind", "json", "tmpl", "expl", "action", "ent", "ctx")}
+    with open(os.path.join(vlib.WORK, "C10", "mc_entityjson_1.cases.ndjson")) as f:
+        case["schema"] = json.loads(f.readline())["schema"]
+    return case
+
+
 def _ok(r):
     return isinstance(r, list) and r and r[0] == "ok"
 
@@ -71,7 +81,7 @@ C10 = dict(
             dict(name="mc_entityjson_2", module="MC_EntityJson.tla", cfg=dict(quick="MC_EntityJson_2.cfg", thorough="MC_EntityJson_2.cfg"),
                  cases=_case)],
     nontrivial=_nontrivial, key=lambda ev: [ev.get("kind"), ev.get("json"), ev.get("ent"), ev.get("ctx")],
-    mutate=_mutate, chunk=110,
+    mutate=_mutate, chunk=110, case_of_event=_case_of_event,
     extra_coverage=dict(acceptance=STATS),
     rule="G: MC_EntityJson (TLC-enumerated, complete for its pools): 69 (attribute, value template) pairs of schema Sc10 (bool, i64 extremes, strings "
          "incl. empty / non-BMP / quote-backslash-NUL / bidi / look-alikes of constructor strings and of JSON, entity references to present, absent and "
